@@ -5,6 +5,7 @@ import (
 	"fmt"
 	"os"
 	"path/filepath"
+	"regexp"
 	"strconv"
 	"strings"
 	"testing"
@@ -453,8 +454,11 @@ func c53NormLog(l string) string {
 			l = l[:i]
 		}
 	}
-	return l
+	// %#v of wrapped errors prints heap addresses ("(*errors.joinError)(0xc007430a98)")
+	return c53PtrRe.ReplaceAllString(l, "(0xPTR)")
 }
+
+var c53PtrRe = regexp.MustCompile(`\(0x[0-9a-f]+\)`)
 
 func c53Compare(a, b c53Result) string {
 	if a.LoadErr != b.LoadErr {
